@@ -49,7 +49,11 @@ namespace pv_inst
         chain_int(p1);
         chain_int(p2);
         chain_void(p3);
-        (void)p4;
+        // a continuation that takes the value by rvalue reference is the only kind allowed to receive the moved value
+        auto m = p4.then([](std::string&& s) { return s.size(); }, Async::NoExcept);
+        auto n = p4.then([](std::string s) { return Async::Promise<int>::resolved(static_cast<int>(s.size())); }, Async::NoExcept);
+        (void)m;
+        (void)n;
         (void)r1;
         (void)r2;
         (void)r3;
